@@ -12,7 +12,7 @@ import sys
 import time
 
 from harness import frames as FR
-from harness.common import chunks, run_coq_cases, cN, cbool, clist, copt, cbytes, REPO, VERIF
+from harness.common import run_coq_cases, cN, cbool, clist, cbytes, REPO, VERIF
 
 MODEL_TARGETS = ['model/Metadata.vo', 'corr/C18Corr.vo', 'corr/Harness.vo']
 ASSUMPTIONS = [
@@ -540,12 +540,6 @@ def boundary_lists(rng, thorough=True):
     return out
 
 
-def env_for(entries):
-    """pattern environment recognising the long pattern strings used by boundary_lists / generators."""
-    env = FR.Env()
-    return env
-
-
 def _register_pats(env, entries):
     # long strings produced by FR.pat(seed, 0, n) inside boundary lists: find seed by matching the first bytes
     def reg(b):
@@ -610,6 +604,9 @@ def malformed(rng, valid_bufs, n_random):
         bufs.append(('custom-name', entry(custom(n), b'xy')))
         bufs.append(('custom-name-short', (custom(n) + b'\x00\x00')[:rng.randint(1, ln + 3)]))
     bufs.append(('empty', b''))
+    # the two witnesses of C18_reencode_arbitrary_refuted
+    bufs.append(('noncanonical-witness', b'\x07text/css\x00\x00\x01a'))
+    bufs.append(('noncanonical-witness', b'\x00a\x00\x00\x05bc'))
     for _ in range(n_random):
         bufs.append(('random', rb(rng, rng.choice([1, 2, 3, 4, 5, 8, 12, 20, 40]))))
         # random but structurally plausible: known id, small declared length
@@ -639,6 +636,10 @@ def _enc_cases(ctx, corr, lists):
             corr.oracle_failures.append({'what': o, 'kind': 'enc', 'entries': es, 'forms': fs})
         if es:
             corr.nontriv(('enc', repr(es)))
+        if not any(entry_overlong(e) for e in es) and not all(entry_in_range(e) for e in es) and oc[0] == 'ok':
+            # outside the format limits but not rejected (empty name, reserved rows, typed name on a generic item,
+            # user name >= 2^16): the property does not constrain these; the model predicts them exactly
+            corr.count('out-of-range-accepted:' + ('decodes-differently' if oc[2] != ('ok', list(es)) else 'round-trips'))
         if on[0] == 'mismatch' or oc[0] == 'mismatch':
             corr.disagreements.append({'what': oc[1] if oc[0] == 'mismatch' else on[1], 'entries': es})
             continue
@@ -691,6 +692,12 @@ def _dec_cases(ctx, corr, bufs):
             continue
         if _norm_dec(dn) != _norm_dec(dc):
             corr.count('dec-backends-differ')
+        if dc[0] == 'ok' and kind != 'serialized':
+            # arbitrary input: the decoder is not injective (C18_reencode_arbitrary_refuted); counted, not required
+            corr.count('dec-arbitrary:' + ('reencodes-to-same-bytes' if rc == ('ok', b) else 'reencodes-differently'))
+        if kind == 'noncanonical-witness' and not (dc[0] == 'ok' and rc[0] == 'ok' and rc[1] != b):
+            corr.disagreements.append({'what': 'witness of C18_reencode_arbitrary_refuted does not behave as stated',
+                                       'buf': b.hex(), 'impl': repr((dc, rc))})
         if _norm_dec(dn) == _norm_dec(dc):
             txt = 'CDec1 %s %s' % (FR.pbytes(b, env), coq_odec(dc, env))
         else:
